@@ -103,6 +103,21 @@ func sched(amount uint64, start, expire, now int64) *big.Int {
 	return q
 }
 
+// schedFloor is the linear schedule itself, rounded down: what "never ahead of the linear schedule"
+// means for a whole number of tokens.
+func schedFloor(amount uint64, start, expire, now int64) *big.Int {
+	dur := expire - start
+	el := now - start
+	if el < 0 {
+		el = 0
+	}
+	if el >= dur || dur <= 0 {
+		return bigU(amount)
+	}
+	n := new(big.Int).Mul(bigU(amount), big.NewInt(el))
+	return n.Div(n, big.NewInt(dur))
+}
+
 func (p *vPool) leftSum() *big.Int {
 	s := new(big.Int)
 	for _, d := range p.Dests {
@@ -327,6 +342,10 @@ func setupVesting(w *ledger.World, r *ledger.Runner) {
 			switch prof {
 			case 0:
 				amt = uint64(1 + ar.Intn(2000))
+				if amt%3 == 0 {
+					// tiny: most triggers round to zero tokens for such a destination
+					amt = 1 + amt%7
+				}
 			case 1:
 				amt = uint64(1e8) + uint64(ar.Int63n(1e11))
 			case 2:
@@ -649,12 +668,12 @@ func (vo vestingOracle) AfterTxn(w *ledger.World, bc *ledger.BlockCtx, o *ledger
 					sig = "C16/vested-decreased"
 				case n.Vested > n.Amount:
 					sig = "C16/vested-exceeds-amount"
-				case bigU(n.Vested).Cmp(new(big.Int).Add(sched(e.Amount, oldP.Start, oldP.Expire, now), big.NewInt(1))) > 0:
+				case n.Vested > e.Vested && bigU(n.Vested).Cmp(schedFloor(e.Amount, oldP.Start, oldP.Expire, now)) > 0:
 					sig = "C16/vested-ahead-of-schedule"
 				}
 				if sig != "" {
-					violate(w, "C16", "destination", sig, "%s: destination %s amount %d: vested %d -> %d at t=%d (start %d, expiry %d, schedule allows %s)+1",
-						fn, e.ID[:min(8, len(e.ID))], e.Amount, e.Vested, n.Vested, now, oldP.Start, oldP.Expire, sched(e.Amount, oldP.Start, oldP.Expire, now))
+					violate(w, "C16", "destination", sig, "%s: destination %s amount %d: vested %d -> %d at t=%d (start %d, expiry %d, schedule allows %s)",
+						fn, e.ID[:min(8, len(e.ID))], e.Amount, e.Vested, n.Vested, now, oldP.Start, oldP.Expire, schedFloor(e.Amount, oldP.Start, oldP.Expire, now))
 				}
 				if n.Vested >= e.Vested {
 					if vestedDelta[e.ID] == nil {
